@@ -12,6 +12,8 @@ extern template void run_rounding<float> ();
 extern template void run_rounding<double> ();
 } // namespace c05
 
+void c05_alias_stage ();
+
 int main (int argc, char** argv)
 {
     vf::R ().property = "C05";
@@ -24,6 +26,7 @@ int main (int argc, char** argv)
     c05::run_det<double> ();
     c05::run_rounding<float> ();
     c05::run_rounding<double> ();
+    c05_alias_stage ();
     vf::R ().sample ("Matrix44f: (2 E_00) * (-59 E_00) = -118 E_00 exactly");
     vf::R ().sample ("Vec3f (1,-2,2) * M44 with last column (1,0,-1,2): w = 1, result = exact numerators");
     vf::R ().sample ("det of 0/1 matrix [1,1,0,1; 1,0,1,1; 0,1,1,1; 1,1,1,0] = -3 exactly");
